@@ -46,7 +46,9 @@ def replay_task(arg):
 
 
 def select(hists, limit, rng, need=lambda h: True):
-    """dedupe by shape, prefer short ones, keep at most `limit`"""
+    """dedupe by shape, keep at most `limit`: round-robin over the classes of abort points (which step of which
+    kind was killed / failed where, and the command line variant) so that every kind of abort point a weakened
+    mechanism yields is replayed, short histories first within a class"""
     by = {}
     for h in hists:
         if not need(h):
@@ -54,13 +56,24 @@ def select(hists, limit, rng, need=lambda h: True):
         s = bc.shape_of(h)
         if s not in by or len(h) < len(by[s]):
             by[s] = h
-    keys = sorted(by, key=lambda s: (len(by[s]), s))
-    if len(keys) > limit:
-        head = keys[:limit // 2]
-        rest = keys[limit // 2:]
+    classes = {}
+    for s, h in by.items():
+        c = tuple(sorted({(x["a"], x.get("k"), x.get("at", "")) for x in h if x["a"] in ("Kill", "Fail")} |
+                         {("flag", x.get("flag"), "") for x in h if x["a"] == "Begin" and x.get("flag", "plain") != "plain"}))
+        classes.setdefault(c, []).append(s)
+    order = sorted(classes, key=repr)
+    for c in order:
+        classes[c].sort(key=lambda s: (len(by[s]), s))
+        head, rest = classes[c][:1], classes[c][1:]
         rng.shuffle(rest)
-        keys = head + rest[:limit - len(head)]
-    return [by[k] for k in keys]
+        classes[c] = head + rest
+    rng.shuffle(order)
+    out = []
+    while len(out) < limit and any(classes.values()):
+        for c in order:
+            if classes[c] and len(out) < limit:
+                out.append(by[classes[c].pop(0)])
+    return out
 
 
 def replay_file(path):
